@@ -9,6 +9,8 @@ compared with the implementation's.
 Oracle: PV.EDSpec.chi on the full Fock space (tools/edlib, driver_ed) against TwoParticleGF::operator() and the table
 returned by compute(clear, freqs): all index patterns, the resonance patterns of the frequency triple, complex off-axis
 triples, purge on/off, vanishing components, empty frequency lists (the latter under UBSan).
+Low temperatures (LOWTEMP): fixed scenarios with beta * gap of ~300, ~800 and ~3000 (Boltzmann weights of the excited states underflow
+to exactly 0.0 beyond ~745) go through the same comparisons in every tier.
 Distributed slice (distributed_slice): TwoParticleGF::compute(clear, freqs, comm) under mpiexec on 2-3 (thorough: up to 7) ranks
 through harness h_c06: every rank's on-demand values and rank 0's table against the single-rank run, which is compared with
 the oracle on the spot (terms kept and broadcast from the rank that computed each part).
@@ -87,6 +89,41 @@ def complex_two_site(rng, symm="default"):
     if rng.random() < 0.5:
         s += "addHopping8 A B 0.25,-0.5 0 0 0 1\n"
     return "complex-two-site", s + "symm %s\nbeta %s\n" % (symm, scen.f(rng.choice([1, 4]))), 4, {}
+
+
+# "all beta": deterministic low-temperature scenarios, run in every tier.  What matters is beta * (gap above the ground state): beyond
+# ~745 the Boltzmann weights of the excited states are exactly 0.0 in binary64, so that world stripes whose 1st / 3rd state is excited
+# carry weight only through their 2nd / 4th state (C2 = -C (w2 + w3), C4 = C (w1 + w4), R = C beta w, N = C (w - w')): ~300 (control, nothing
+# underflows), ~800, ~3000.  Atoms with an empty, a doubly occupied, a spin-degenerate and a polarised ground state, dimers away from and
+# at half filling.  Values of order beta (the resonant pieces) are expected: the tolerance stays relative to the scales S0, S1, S2 of the
+# multiterm pieces.  The oracle's weights are EDSpec.weights (relative to the lowest eigenvalue): nothing on the reference side overflows.
+LOWTEMP_TRIPLES = SPECIAL + [(0, 1, 2), (-3, 2, 5), (4, -1, -2)]
+ATOM_QUADS = [(0, 0, 0, 0), (1, 1, 1, 1), (0, 1, 0, 1), (0, 1, 1, 0), (1, 0, 1, 0), (0, 0, 1, 1)]
+DIMER_QUADS = [(0, 0, 0, 0), (0, 1, 0, 1), (0, 1, 1, 0), (0, 2, 0, 2), (0, 3, 0, 3), (0, 2, 2, 0), (0, 3, 2, 1), (2, 2, 2, 2)]
+LOWTEMP = [
+    # (family, scenario, modes, quads, intended beta*gap)
+    ("lowT-atom-doubly-occupied", "site A 1 2\naddCoulombS A 2 -3\nsymm default\nbeta 300\n", 2, ATOM_QUADS, 300),
+    ("lowT-atom-doubly-occupied", "site A 1 2\naddCoulombS A 2 -3\nsymm default\nbeta 1000\n", 2, ATOM_QUADS, 1000),
+    ("lowT-atom-empty", "site A 1 2\naddCoulombS A 2 1\nsymm default\nbeta 800\n", 2, ATOM_QUADS, 800),
+    ("lowT-atom-half-filling", "site A 1 2\naddCoulombS A 2 -1\nsymm default\nbeta 3000\n", 2, ATOM_QUADS, 3000),
+    ("lowT-atom-polarised", "site A 1 2\naddCoulombS A 4 -1.5\naddMagnetization A 0.5\nsymm ignore\nbeta 800\n", 2, ATOM_QUADS, 800),
+    ("lowT-dimer", "site A 1 2\nsite B 1 2\naddCoulombS A 2 -3\naddCoulombS B 2 -3\naddHopping4 A B 0.25\nsymm default\nbeta 1200\n", 4, DIMER_QUADS, 900),
+    ("lowT-dimer-half-filling", "site A 1 2\nsite B 1 2\naddCoulombS A 4 -2\naddCoulombS B 4 -2\naddHopping4 A B 0.5\nsymm default\nbeta 12000\n", 4,
+     DIMER_QUADS, 3000),
+]
+LOWTEMP_THOROUGH = [
+    ("lowT-atom-empty", "site A 1 2\naddCoulombS A 2 1\nsymm ignore\nbeta 3000\n", 2, ATOM_QUADS, 3000),
+    ("lowT-atom-half-filling", "site A 1 2\naddCoulombS A 2 -1\nsymm default\nbeta 300\n", 2, ATOM_QUADS, 300),
+    ("lowT-dimer", "site A 1 2\nsite B 1 2\naddCoulombS A 2 -3\naddCoulombS B 2 -3\naddHopping4 A B 0.25\nsymm ignore\nbeta 400\n", 4, DIMER_QUADS[:5], 300),
+    ("lowT-dimer-asymmetric", "site A 1 2\nsite B 1 2\naddCoulombS A 2 -3\naddLevel B -0.5\naddHopping4 A B 0.5\naddHopping8 A B 0.25 0 0 0 1\nsymm default\nbeta 48000\n",
+     4, DIMER_QUADS, 3000),
+]
+OFFAXIS_FIXED = [complex(0.25, 0.5), complex(-0.5, 1.25), complex(0.375, -0.25), complex(0.25, 0.5), complex(-0.25, -0.5), complex(0.5, 0.75)]
+
+
+def low_temperature(tier):
+    return [Scn(fam, text, M, {"lowT": bg}, list(quads), list(LOWTEMP_TRIPLES), list(OFFAXIS_FIXED), "real")
+            for (fam, text, M, quads, bg) in LOWTEMP + ([] if tier == "quick" else LOWTEMP_THOROUGH)]
 
 
 QUICK_FAMILIES = [half_filled_atom, scen.hubbard_atom, scen.free_degenerate, scen.atomic_limit, diag_straddle, near_degenerate, near_degenerate,
@@ -226,6 +263,14 @@ class Scn:
         r = edlib.run(self.text, oq, variant=self.variant, timeout=900)
         self.oracle = r.oracle
         self.cert = r.cert
+        try:
+            ev = sorted(e for es in r.eigs().values() for e in es)
+            ws = sorted(w for wl in r.weights().values() for w in wl)
+            gap = min([e - ev[0] for e in ev if e - ev[0] > 1e-9] or [0.0])
+            self.spectrum = {"E_ground": ev[0], "gap": gap, "beta*gap": self.beta * gap, "ground_degeneracy": sum(1 for e in ev if e - ev[0] <= 1e-9),
+                             "weights_exactly_zero": sum(1 for w in ws if w == 0.0), "states": len(ws)}
+        except Exception as ex:
+            self.spectrum = {"error": repr(ex)}
         self.oracle_err = getattr(r, "oracle_err", "")
 
 
@@ -700,16 +745,26 @@ def run(chk):
         hc = pv.build_harness("h_c02", "complex")
         edlib.binaries("complex")
         scs += generate(chk, "complex", [complex_two_site, complex_two_site, scen.two_site, scen.free_degenerate, diag_straddle, half_filled_atom], 8, 10)
+    scs = scs[:2] + low_temperature(chk.tier) + scs[2:]
     for s in scs:
         hh = h if s.variant == "real" else hc
         s.run(hh, d)
         check_scenario(chk, s, hh, d, first)
+        if "lowT" in s.info:
+            sp = dict(getattr(s, "spectrum", {}), family=s.fam, scenario=" | ".join(s.text.strip().split("\n")), intended=s.info["lowT"])
+            chk.extra.setdefault("low_temperature", []).append(sp)
+            if not s.crash and not s.error and (sp.get("error") or not 0.6 * s.info["lowT"] <= sp.get("beta*gap", 0) <= 1.6 * s.info["lowT"]
+                                                 or (s.info["lowT"] >= 800 and not sp.get("weights_exactly_zero"))):
+                chk.tie_broken("low-temperature bookkeeping", "%s: beta*gap is not where the scenario is meant to be: %r" % (s.fam, sp))
     report(chk, first, h, d)
     distributed_slice(chk, quick)
     chk.rule = ("scenarios from the shared families (Hubbard atom incl. half filling, free degenerate, atomic limit, two-site, Anderson; thorough: Kanamori, exchange, "
                 "complex hoppings on the complex build) plus a diagonal family with level spacings 6e-9 / 1.2e-8 / 3e-8; per scenario 6-10 index quadruples covering the "
                 "patterns direct, exchange, i=j, k=l, all equal, all distinct, random; per quadruple the fixed triples hitting n1=n3, n2=n3, n1+n2=-1 and their "
                 "coincidences plus random ones, two to three complex off-axis triples (one with z1+z2=0), purge off and on, one empty frequency list; "
+                "deterministic low-temperature scenarios in every tier (atoms with empty / doubly occupied / spin-degenerate / polarised ground state, dimers; "
+                "beta*gap ~ 300, ~800..1000, ~3000, so that excited-state weights are exactly 0.0; 6-8 quadruples incl. uuuu, udud, uddu, inter-site, vanishing; "
+                "all 9 resonance patterns + 3 non-resonant triples; on-demand, both table paths, term lists against the model, values against the oracle); "
                 "a distributed slice (2-3, thorough up to 7 MPI ranks, one two-site model, 3-6 quadruples, 5 triples: every rank's on-demand values and "
                 "rank 0's table against the single-rank run and the definition); "
                 "a case is distinct by (scenario text, quadruple, triple, purge) and non-trivial when the component vanishes by symmetry or the exact value is "
